@@ -43,7 +43,10 @@ Cfg == Traces[tid].cfg
 
 NoBest == [has |-> FALSE, obj |-> 0, en |-> -1, ns |-> -1]
 NoModel == [slots |-> <<>>, kopt |-> 1, save |-> NoSave, jacen |-> <<>>, fc |-> FALSE, numpts |-> 0]
-NoBatch == [open |-> FALSE, req |-> 0, done |-> 0, nf0 |-> 0, nx0 |-> 0]
+\* evaluate_objective in progress (open .. nx0), and the batch that has just ended and still has to be CONSUMED (pend ..): a batch that ran at least one
+\* sample must enter the model (change_point / add_new_point with its own point number, then one add_new_sample per further sample) or, on an
+\* exit, be offered to save_point - the mechanism behind C04 ("never lost") and C02/C17 ("sample count exact")
+NoBatch == [open |-> FALSE, req |-> 0, done |-> 0, nf0 |-> 0, nx0 |-> 0, nan |-> FALSE, pend |-> FALSE, pnx |-> 0, prun |-> 0, pnan |-> FALSE, needas |-> 0]
 NoX0 == [open |-> FALSE, req |-> 0, done |-> 0]
 NoneF == -2     \* "no finite value seen yet"
 
@@ -70,8 +73,24 @@ ObsSlots(p) == [k \in 1..p.npt |-> Slot(p.en[k], p.ns[k], p.obj[k])]
 ObsSave(p)  == IF p.hassave THEN [has |-> TRUE, obj |-> p.objsave, en |-> p.ensave, ns |-> p.nssave, jacen |-> p.jacsaveen] ELSE NoSave
 Obs(p) == [slots |-> ObsSlots(p), kopt |-> p.kopt + 1, save |-> ObsSave(p), jacen |-> p.jacen, fc |-> p.fc, numpts |-> p.numpts]
 \* the per-slot identity classes computed by the recorder (C03 / C17): the slot designates the evaluation it names
-IdentOK(p) == /\ \A k \in 1..p.npt : p.xok[k] /\ p.rok[k] /\ p.ook[k] /\ p.en[k] \in 1..nx
-              /\ (p.hassave => p.xoksave /\ p.roksave /\ p.ooksave /\ p.ensave \in 1..nx)
+\* point identity: "t" = equal to rounding of the base-point arithmetic; "r" = equal up to a re-projection at the level of the Dykstra tolerance (the read
+\* accessor re-applies the alternating projections to the stored point; only possible when projections are given) - reported under its own clause
+PointsOK(p) == /\ \A k \in 1..p.npt : p.xok[k] \in {"t", "r"}
+               /\ (p.hassave => p.xoksave \in {"t", "r"})
+PointsExact(p) == /\ \A k \in 1..p.npt : p.xok[k] # "r"
+                  /\ (p.hassave => p.xoksave # "r")
+ResidsOK(p) == /\ \A k \in 1..p.npt : p.rok[k]
+               /\ (p.hassave => p.roksave)
+ObjsOK(p) == /\ \A k \in 1..p.npt : p.ook[k]
+             /\ (p.hassave => p.ooksave)
+EvalNumsOK(p) == /\ \A k \in 1..p.npt : p.en[k] \in 1..nx
+                 /\ (p.hassave => p.ensave \in 1..nx)
+IdentClauses(p, pre) ==
+  << <<pre \o "point_is_the_evaluated_point", {"C03", "C17", "C11"}, PointsOK(p)>>,
+     <<pre \o "point_not_reprojected", {"C03"}, PointsExact(p)>>,
+     <<pre \o "residual_is_mean_of_samples", {"C03", "C17"}, ResidsOK(p)>>,
+     <<pre \o "objective_is_sumsq_plus_h", {"C03", "C17"}, ObjsOK(p)>>,
+     <<pre \o "evalnum_in_range", {"C03", "C17", "C11"}, EvalNumsOK(p)>> >>
 \* same abstract state, ignoring the factorisation flag (which read-only queries may set)
 SameButFc(a, b) == a.slots = b.slots /\ a.kopt = b.kopt /\ a.save = b.save /\ a.jacen = b.jacen /\ a.numpts = b.numpts
 
@@ -96,7 +115,8 @@ Call(e) ==
   /\ faulted' = (faulted \/ e.cls # "fin")
   /\ bestBeforeFault' = IF ~faulted /\ e.cls = "fin" THEN MinF(bestBeforeFault, e.f) ELSE bestBeforeFault
   /\ raisedSeen' = (raisedSeen \/ e.raised)
-  /\ UNCH(<<nx, mdl, batch, x0st, ptxid>>) /\ UNCH(Rest1)
+  /\ batch' = IF batch.open /\ e.cls = "nan" THEN [batch EXCEPT !.nan = TRUE] ELSE batch
+  /\ UNCH(<<nx, mdl, x0st, ptxid>>) /\ UNCH(Rest1)
 
 LogEval(e) ==
   /\ Chk(<< <<"log_evalnum", {"C02"}, e.i = nf>>,
@@ -130,9 +150,8 @@ X0Closed(req) == x0st.open => (x0st.done = req \/ nf = Cfg.maxfun)
 
 ModelInit(e) ==
   LET p == e.m IN
-  /\ Chk(<< <<"init_one_slot", {"C03", "C17"}, p.npt = 1 /\ p.kopt = 0 /\ ~p.hassave>>,
+  /\ Chk(IdentClauses(p, "init_") \o << <<"init_one_slot", {"C03", "C17"}, p.npt = 1 /\ p.kopt = 0 /\ ~p.hassave>>,
             <<"x0_samples", {"C02"}, X0Closed(lastreq)>>,
-            <<"init_slot_designates_x0", {"C03", "C11"}, IdentOK(p)>>,
             <<"init_en", {"C03", "C11"}, IF x0st.open THEN p.en[1] = nx ELSE (best.has /\ p.en[1] = best.en /\ p.ns[1] = best.ns /\ p.obj[1] = best.obj)>> >>)
   /\ mdl' = Obs(p) /\ x0st' = NoX0
   /\ UNCH(<<nf, nx, batch, curxid, ptxid, bestf, bestBeforeFault, faulted, raisedSeen>>) /\ UNCH(Rest1)
@@ -145,9 +164,13 @@ ModelEv(e, pred, extra) ==
                      <<"pred_jacen", {"C11"}, Obs(p).jacen = pred.jacen>>,
                      <<"pred_numpts", {"C17"}, Obs(p).numpts = pred.numpts>>,
                      <<"pred_fc", {"C16"}, Obs(p).fc = pred.fc>>,
-                     <<"slot_designates_evaluation", {"C03", "C17"}, IdentOK(p)>> >>)
+                     <<"pred_dummy", {}, TRUE>> >> \o IdentClauses(p, "slot_"))
   /\ mdl' = Obs(p)
-  /\ UNCH(<<nf, nx, batch, x0st, curxid, ptxid, bestf, bestBeforeFault, faulted, raisedSeen>>) /\ UNCH(Rest1)
+  /\ batch' = IF e.ev \in {"ChangePoint", "AddPoint"} /\ batch.pend /\ e.enarg = batch.pnx THEN [batch EXCEPT !.pend = FALSE, !.needas = batch.prun - 1]
+               ELSE IF e.ev = "SavePoint" /\ batch.pend /\ e.enarg = batch.pnx THEN [batch EXCEPT !.pend = FALSE]
+               ELSE IF e.ev = "AddSample" /\ batch.needas > 0 THEN [batch EXCEPT !.needas = @ - 1]
+               ELSE batch
+  /\ UNCH(<<nf, nx, x0st, curxid, ptxid, bestf, bestBeforeFault, faulted, raisedSeen>>) /\ UNCH(Rest1)
 
 ChangePoint(e) ==
   LET k == e.k + 1
@@ -176,13 +199,16 @@ Factorise(e) == ModelEv(e, FactoriseM(mdl), << <<"factorise_only_when_stale", {"
 SavePoint(e) ==
   LET pred == SavePointM(mdl, e.objarg, e.nsarg, e.enarg)
   IN ModelEv(e, pred, << <<"sp_decision", {"C03", "C04", "C08", "C17"}, e.saved = SaveDecision(mdl, e.objarg)>>,
-                         <<"sp_evalnum_in_range", {"C03"}, e.enarg \in 1..nx>> >>)
+                         <<"sp_evalnum_in_range", {"C03"}, e.enarg \in 1..nx>>,
+                         <<"sp_batch_sample_count", {"C02", "C03"}, (batch.pend /\ e.enarg = batch.pnx) => e.nsarg = batch.prun>> >>)
 
 Interp(e) ==
   LET pred == InterpM(mdl, e.ok)
       incumb == ObjOpt(mdl)
       have == IF mdl.save.has /\ (Lt(mdl.save.obj, incumb) \/ IsNaN(incumb)) THEN mdl.save.obj ELSE incumb
   IN ModelEv(e, pred, << <<"interp_fails_on_nan", {"C08"}, HasNonFinite(mdl) => ~e.ok>>,
+                         <<"evaluated_point_not_dropped", {"C04", "C08"}, Cfg.parallel \/ ~batch.pend>>,
+                         <<"all_samples_added", {"C02", "C17"}, Cfg.parallel \/ batch.needas = 0>>,
                          <<"best_so_far_kept", {"C04"}, (Cfg.det /\ ~Cfg.reg /\ bestf # NoneF) => Leq(have, bestf)>>,
                          <<"radii_delta_ge_rho", {"C18"}, delta >= rho>>,
                          <<"radii_rho_le_rhobeg", {"C18"}, rho <= rhobegr>> >>)
@@ -221,8 +247,10 @@ Ratio(e) ==
 
 EvalBegin(e) ==
   /\ Chk(<< <<"eb_nf", {"C02"}, e.nf = nf>>, <<"eb_nx", {"C02"}, e.nx = nx>>, <<"eb_req_floor", {"C02"}, e.req >= 1>>,
-            <<"eb_req_is_callback_value", {"C02"}, e.req = lastreq>>, <<"eb_not_nested", {"C02"}, ~batch.open>> >>)
-  /\ batch' = [open |-> TRUE, req |-> e.req, done |-> 0, nf0 |-> e.nf, nx0 |-> e.nx]
+            <<"eb_req_is_callback_value", {"C02"}, e.req = lastreq>>, <<"eb_not_nested", {"C02"}, ~batch.open>>,
+            <<"evaluated_point_not_dropped", {"C04", "C08"}, Cfg.parallel \/ ~batch.pend>>,
+            <<"all_samples_added", {"C02", "C17"}, Cfg.parallel \/ batch.needas = 0>> >>)
+  /\ batch' = [NoBatch EXCEPT !.open = TRUE, !.req = e.req, !.nf0 = e.nf, !.nx0 = e.nx]
   /\ UNCH(<<nf, nx, mdl, x0st, curxid, ptxid, bestf, bestBeforeFault, faulted, raisedSeen>>) /\ UNCH(Rest1)
 
 EvalEnd(e) ==
@@ -231,7 +259,7 @@ EvalEnd(e) ==
             <<"ee_run_is_calls_made", {"C02"}, e.run = batch.done>>,
             <<"ee_samples_exact_unless_budget", {"C02"}, e.run = batch.req \/ (nf = Cfg.maxfun /\ e.hasexit)>>,
             <<"ee_maxfun_flag_truth", {"C10", "C02"}, (e.hasexit /\ e.flag = 1) => nf = Cfg.maxfun>> >>)
-  /\ batch' = NoBatch
+  /\ batch' = [NoBatch EXCEPT !.pend = (e.run > 0), !.pnx = e.nx, !.prun = e.run, !.pnan = batch.nan]
   /\ UNCH(<<nf, nx, mdl, x0st, curxid, ptxid, bestf, bestBeforeFault, faulted, raisedSeen>>) /\ UNCH(Rest1)
 
 EvalAbort(e) == /\ Chk(<< >>) /\ batch' = NoBatch
@@ -271,7 +299,10 @@ RunEnd(e) ==
             <<"re_is_final_query", {"C03", "C04", "C17"}, ~atx0 => (e.obj = lastRun.obj /\ e.en = lastRun.en /\ e.ns = lastRun.ns)>>,
             <<"re_jacen_is_final_query", {"C11"}, (~atx0 /\ e.hasjac) => e.jacen = lastRun.jacen>>,
             <<"re_maxfun_truth", {"C10"}, e.flag = 1 => nf = Cfg.maxfun>>,
-            <<"re_no_open_batch", {"C02"}, ~batch.open>> >>)
+            <<"re_no_open_batch", {"C02"}, ~batch.open>>,
+            \* the one deliberate exception: a NaN in the trial evaluation of a trust-region step leaves the run without saving the point (solver.py:595-605)
+            <<"evaluated_point_not_dropped", {"C04", "C08"}, Cfg.parallel \/ ~batch.pend \/ (batch.pnan /\ e.flag = -4 /\ e.msgc = "nan")>>,
+            <<"all_samples_added", {"C02", "C17"}, Cfg.parallel \/ batch.needas = 0>> >>)
   /\ nruns' = e.nruns
   /\ best' = IF better THEN [has |-> TRUE, obj |-> e.obj, en |-> e.en, ns |-> e.ns] ELSE best
   /\ bestjac' = IF ~best.has THEN e.jacen ELSE IF better /\ e.hasjac THEN e.jacen ELSE bestjac
@@ -279,7 +310,8 @@ RunEnd(e) ==
   /\ hardLSR' = IF ~best.has \/ better THEN e.nruns ELSE hardLSR
   /\ lastexit' = [flag |-> e.flag, msgc |-> e.msgc]
   /\ mdl' = NoModel /\ x0st' = NoX0
-  /\ UNCH(<<nf, nx, restarts, lastRun, rho, delta, rhobegr, batch, lastreq, curxid, ptxid, bestf, bestBeforeFault, faulted, raisedSeen, dykout, runrho, softopen>>)
+  /\ batch' = NoBatch
+  /\ UNCH(<<nf, nx, restarts, lastRun, rho, delta, rhobegr, lastreq, curxid, ptxid, bestf, bestBeforeFault, faulted, raisedSeen, dykout, runrho, softopen>>)
 
 Dyk(e) ==
   LET byrule == e.sweeps >= 1 /\ e.below[e.sweeps]
@@ -343,7 +375,8 @@ Return(e) ==
             <<"rt_bounds_exact", {"C01", "C08", "C05", "C06"}, sol => \A j \in 1..Len(e.xpos) : e.xpos[j] \in 1..3>>,
             <<"rt_x_finite", {"C08"}, sol => e.xfin>>,
             <<"rt_en_in_range", {"C03", "C08"}, sol => e.en \in 1..nx>>,
-            <<"rt_x_is_evaluated_point", {"C03", "C08"}, sol => e.xok>>,
+            <<"rt_x_is_evaluated_point", {"C03", "C08"}, sol => e.xok \in {"t", "r"}>>,
+            <<"rt_x_not_reprojected", {"C03"}, sol => e.xok # "r">>,
             <<"rt_resid_is_mean", {"C03"}, sol => e.rok>>,
             <<"rt_obj_consistent", {"C03"}, sol => e.objok>>,
             <<"rt_is_merged_best", {"C03", "C04"}, sol => (e.obj = best.obj /\ e.en = best.en)>>,
